@@ -178,7 +178,13 @@ func DecodePng(r io.ReadSeeker) (exif2.Exif, error) {
 	ir := exif2.NewIfdReader(exif2.Logger)
 	defer ir.Close()
 
-	if err := ir.DecodeTiff(r, header); err != nil {
+	// the Exif payload is read through the same buffered reader as in the other
+	// containers (the unbuffered path of the directory reader is limited to 1024-byte values)
+	rr := readerPool.Get().(*bufio.Reader)
+	rr.Reset(r)
+	defer readerPool.Put(rr)
+
+	if err := ir.DecodeTiff(rr, header); err != nil {
 		return ir.Exif, err
 	}
 
